@@ -1,53 +1,33 @@
-import Aiorpcx.C08.Step
-/-! Progress: once the connection is lost the remaining reactions are the only thing between the
-state and `_closed_event`; a task in `close()` gets there by its `force_after` deadline at the
-latest. -/
+import Aiorpcx.C08.Closing
+/-! Progress: once message processing is torn down the remaining reactions are the only thing
+between the state and `_closed_event`; a task in `close()` forces the loss by the instant its
+wait is cut short at the latest. -/
 namespace Aiorpcx.C08
 
 /-! ### how a clock tick acts on the fields the progress argument reads -/
 
-theorem fireClosers_lost {s : S} (hl : s.lost = true) : s.fireClosers.lost = true := by
-  unfold S.fireClosers
-  simp only []
-  split
-  · exact hl
-  · exact lose_lost _
-
-theorem lose_handlers_of_lost {q : S} (hl : q.lost = true) : q.lose.handlers = q.handlers := by
-  rw [lose_lost_of_lost hl]
-
-theorem fireClosers_handlers_of_lost {s : S} (hl : s.lost = true) :
-    s.fireClosers.handlers = s.handlers := by
-  unfold S.fireClosers
-  simp only []
+theorem lose_now (s : S) (why : Cause) : (s.lose why).now = s.now := by
+  unfold S.lose
   split
   · rfl
-  · refine lose_handlers_of_lost ?_
-    exact hl
+  · rw [settle_now]; split <;> rfl
+
+theorem doAbort_now (s : S) : s.doAbort.now = s.now := by
+  unfold S.doAbort
+  split
+  · rfl
+  · exact lose_now _ _
 
 @[simp] theorem tick_now (s : S) : s.tick.now = s.now + 1 := by
-  unfold S.tick
-  rw [settle_now]
-  show s.bump.expire.fireClosers.now = s.now + 1
-  rw [fireClosers_now]; rfl
+  rw [tick_eq]
+  split
+  · rw [settle_now, doAbort_now]; rfl
+  · rw [settle_now]; rfl
 
-theorem tick_lost {s : S} (hl : s.lost = true) : s.tick.lost = true := by
-  unfold S.tick
-  rw [settle_lost]
-  exact fireClosers_lost (s := s.bump.expire) hl
-
-theorem tick_handlers_of_lost {s : S} (hl : s.lost = true) :
-    s.tick.handlers = s.handlers.map (finishReaction (s.now + 1)) := by
-  unfold S.tick
-  rw [settle_handlers]
-  show s.bump.expire.fireClosers.handlers.map (finishReaction s.bump.expire.fireClosers.now) = _
-  rw [fireClosers_handlers_of_lost (s := s.bump.expire) hl, fireClosers_now]
-  rfl
-
-theorem advance_lost (n : Nat) : ∀ {s : S}, s.lost = true → (s.advance n).lost = true := by
+@[simp] theorem advance_now (n : Nat) : ∀ (s : S), (s.advance n).now = s.now + n := by
   induction n with
-  | zero => intro s h; exact h
-  | succ n ih => intro s h; exact ih (tick_lost h)
+  | zero => intro s; rfl
+  | succ n ih => intro s; show (s.tick.advance n).now = _; rw [ih, tick_now]; omega
 
 theorem advance_add (a b : Nat) : ∀ (s : S), s.advance (a + b) = (s.advance a).advance b := by
   induction a with
@@ -57,49 +37,77 @@ theorem advance_add (a b : Nat) : ∀ (s : S), s.advance (a + b) = (s.advance a)
     rw [Nat.succ_add]
     exact ih s.tick
 
-@[simp] theorem advance_now (n : Nat) : ∀ (s : S), (s.advance n).now = s.now + n := by
+theorem lose_down (s : S) (why : Cause) (hd : s.down = true) : (s.lose why).down = true := by
+  unfold S.lose
+  split
+  · exact hd
+  · rw [settle_down]; simp only [hd]
+
+theorem lose_handlers_of_down (s : S) (why : Cause) (hd : s.down = true) :
+    (s.lose why).handlers = s.handlers := by
+  unfold S.lose
+  split
+  · rfl
+  · rw [settle_handlers]; try simp [hd]
+
+theorem doAbort_down (s : S) (hd : s.down = true) : s.doAbort.down = true := by
+  unfold S.doAbort
+  split
+  · exact hd
+  · exact lose_down _ _ hd
+
+theorem doAbort_handlers_of_down (s : S) (hd : s.down = true) : s.doAbort.handlers = s.handlers := by
+  unfold S.doAbort
+  split
+  · rfl
+  · exact lose_handlers_of_down _ _ hd
+
+theorem tick_down {s : S} (hd : s.down = true) : s.tick.down = true := by
+  rw [tick_eq]
+  split
+  · rw [settle_down]; exact doAbort_down s.fired hd
+  · rw [settle_down]; exact hd
+
+theorem tick_handlers_of_down {s : S} (hd : s.down = true) :
+    s.tick.handlers = s.handlers.map (fireHandler (s.now + 1)) := by
+  rw [tick_eq]
+  split
+  · rw [settle_handlers, doAbort_handlers_of_down s.fired hd]; rfl
+  · rw [settle_handlers]; rfl
+
+theorem advance_down (n : Nat) : ∀ {s : S}, s.down = true → (s.advance n).down = true := by
   induction n with
-  | zero => intro s; rfl
-  | succ n ih => intro s; show (s.tick.advance n).now = _; rw [ih, tick_now]; omega
+  | zero => intro s h; exact h
+  | succ n ih => intro s h; exact ih (tick_down h)
 
-/-! ### after the loss: the reactions run out -/
+theorem tick_lost {s : S} (hl : s.lost = true) : s.tick.lost = true := by
+  rw [tick_eq]
+  split
+  · exact settle_lost (doAbort_lost _)
+  · exact settle_lost hl
 
-/-- with the connection lost and every remaining reaction over within `n` seconds,
-`_closed_event` is set after `n` seconds (and stays set) -/
-theorem closed_after (n : Nat) : ∀ {s : S}, HInv s → s.lost = true →
-    (∀ h ∈ s.handlers, ∀ u, h.status = .reacting u → u ≤ s.now + n) →
-    (s.advance n).closedEvent = true := by
+theorem advance_lost (n : Nat) : ∀ {s : S}, s.lost = true → (s.advance n).lost = true := by
   induction n with
-  | zero =>
-    intro s hi hl hb
-    apply hi.closedIf hl
-    intro h hh
-    cases hs : h.status with
-    | run => exact absurd hs (hi.noRun hl h hh)
-    | reacting u =>
-      have h1 := hi.reactLt h hh u hs
-      have h2 := hb h hh u hs
-      omega
-    | done => rfl
-  | succ n ih =>
-    intro s hi hl hb
-    show (s.tick.advance n).closedEvent = true
-    apply ih (tick_hinv hi) (tick_lost hl)
-    intro h hh u hu
-    rw [tick_handlers_of_lost hl] at hh
-    simp only [List.mem_map] at hh
-    obtain ⟨y, hy, rfl⟩ := hh
-    have := hb y hy u (finishReaction_reacting _ _ _ hu).1
-    rw [tick_now]; omega
+  | zero => intro s h; exact h
+  | succ n ih => intro s h; exact ih (tick_lost h)
 
-/-- how long handler `h` can still take once cancelled -/
-def remaining (now : Nat) (h : Handler) : Nat :=
+/-! ### a bound on the reactions -/
+
+/-- how long handler `h` can take from `now` once the teardown has cancelled it -/
+def hBound (now : Nat) (h : Handler) : Nat :=
   match h.status with
+  | .run => match h.kind with
+    | .stubborn r => r
+    | _ => 0
+  | .overrun _ => 0
   | .reacting u => u - now
-  | _ => 0
+  | .done => 0
 
-/-- the largest remaining reaction -/
-def maxRemaining (s : S) : Nat := (s.handlers.map (remaining s.now)).foldr max 0
+/-- every handler gives in within `n` seconds of being cancelled -/
+def RB (s : S) (n : Nat) : Prop := ∀ h ∈ s.handlers, hBound s.now h ≤ n
+
+/-- a computable such bound: the longest reaction -/
+def reactBound (s : S) : Nat := (s.handlers.map (hBound s.now)).foldr max 0
 
 theorem le_foldr_max : ∀ (l : List Nat) (x : Nat), x ∈ l → x ≤ l.foldr max 0
   | [], x, h => by cases h
@@ -109,168 +117,199 @@ theorem le_foldr_max : ∀ (l : List Nat) (x : Nat), x ∈ l → x ≤ l.foldr m
     · exact Nat.le_max_left _ _
     · exact Nat.le_trans (le_foldr_max l x h) (Nat.le_max_right _ _)
 
-theorem remaining_le_max (s : S) (h : Handler) (hh : h ∈ s.handlers) :
-    remaining s.now h ≤ maxRemaining s :=
-  le_foldr_max _ _ (List.mem_map.mpr ⟨h, hh, rfl⟩)
-
-/-! ### before the loss: a task in `close()` forces it by its deadline -/
-
-theorem settle_closers_deadlines (s : S) :
-    s.settle.closers.map (·.deadline) = s.closers.map (·.deadline) := by
-  unfold S.settle
-  split
-  · simp only [List.map_map]
-    apply List.map_congr_left
-    intro c _
-    simp only [Function.comp]
-    unfold returnCloser; split <;> rfl
-  · rfl
-
-theorem lose_closers_deadlines (s : S) :
-    s.lose.closers.map (·.deadline) = s.closers.map (·.deadline) := by
-  unfold S.lose
-  split
-  · rfl
-  · rw [settle_closers_deadlines]; rfl
-
-theorem fireClosers_closers_deadlines (s : S) :
-    s.fireClosers.closers.map (·.deadline) = s.closers.map (·.deadline) := by
-  have hm : (s.closers.map (abortCloser s.now)).map (·.deadline) = s.closers.map (·.deadline) := by
-    simp only [List.map_map]
-    apply List.map_congr_left
-    intro c _
-    simp only [Function.comp]
-    exact abortCloser_deadline _ _
-  unfold S.fireClosers
-  simp only []
-  split
-  · exact hm
-  · rw [lose_closers_deadlines]; exact hm
-
-theorem tick_closers_deadlines (s : S) :
-    s.tick.closers.map (·.deadline) = s.closers.map (·.deadline) := by
-  unfold S.tick
-  rw [settle_closers_deadlines]
-  show s.bump.expire.fireClosers.closers.map (·.deadline) = _
-  rw [fireClosers_closers_deadlines]
-  rfl
-
-theorem tick_inv {s : S} (i : Inv s) : Inv s.tick :=
-  ⟨tick_hinv i.h, tick_tinv i.t, tick_cinv i.c⟩
-
-theorem advance_inv (n : Nat) {s : S} (i : Inv s) : Inv (s.advance n) :=
-  ⟨advance_hinv n i.h, advance_tinv n i.t, advance_cinv n i.c⟩
-
-/-- a task inside `close()` whose `force_after` deadline is at most `n` seconds away: after `n`
-seconds the connection is lost (it was already, or became so on its own, or the task's `abort()`
-did it) -/
-theorem lost_by_deadline (n : Nat) : ∀ {s : S}, Inv s →
-    (∃ c ∈ s.closers, c.deadline ≤ s.now + n) → (s.advance n).lost = true := by
-  induction n with
-  | zero =>
-    intro s i ⟨c, hc, hd⟩
-    show s.lost = true
-    cases hs : c.st with
-    | waiting => have := i.c.waitingLt c hc hs; omega
-    | abortedWaiting => exact i.c.abortedLost c hc hs
-    | returned a =>
-      cases hce : s.closedEvent with
-      | false => exact absurd hs (i.c.openNone hce c hc a)
-      | true => exact (i.h.closedThen hce).1
-  | succ n ih =>
-    intro s i ⟨c, hc, hd⟩
-    show (s.tick.advance n).lost = true
-    apply ih (tick_inv i)
-    have hm : c.deadline ∈ s.tick.closers.map (·.deadline) := by
-      rw [tick_closers_deadlines]; exact List.mem_map.mpr ⟨c, hc, rfl⟩
-    obtain ⟨c', hc', e⟩ := List.mem_map.mp hm
-    exact ⟨c', hc', by rw [e, tick_now]; omega⟩
-
-/-! ### a bound on the reactions that holds before the loss as well -/
-
-/-- how long handler `h` can take from `now` once it is cancelled -/
-def hBound (now : Nat) (h : Handler) : Nat :=
-  match h.status with
-  | .run => match h.kind with
-    | .stubborn r => r
-    | _ => 0
-  | .reacting u => u - now
-  | .done => 0
-
-/-- every handler gives in within `n` seconds of being cancelled -/
-def RB (s : S) (n : Nat) : Prop := ∀ h ∈ s.handlers, hBound s.now h ≤ n
-
-/-- a computable such bound -/
-def reactBound (s : S) : Nat := (s.handlers.map (hBound s.now)).foldr max 0
-
 theorem RB_reactBound (s : S) : RB s (reactBound s) :=
   fun h hh => le_foldr_max _ _ (List.mem_map.mpr ⟨h, hh, rfl⟩)
 
-theorem hBound_succ (now : Nat) (h : Handler) : hBound (now + 1) h ≤ hBound now h := by
-  unfold hBound
-  split
-  · exact Nat.le_refl _
-  · omega
-  · exact Nat.le_refl _
+theorem hBound_fire (now : Nat) (h : Handler) :
+    hBound (now + 1) (fireHandler (now + 1) h) ≤ hBound now h - (match h.status with | .reacting _ => 1 | _ => 0) := by
+  unfold fireHandler hBound
+  grind
+
+theorem hBound_fire_le (now : Nat) (h : Handler) :
+    hBound (now + 1) (fireHandler (now + 1) h) ≤ hBound now h :=
+  Nat.le_trans (hBound_fire now h) (Nat.sub_le _ _)
 
 theorem hBound_cancel (now : Nat) (h : Handler) : hBound now (cancelHandler now h) ≤ hBound now h := by
-  unfold cancelHandler
-  split
-  · rename_i hr
-    split
-    · rename_i r hk
-      simp [hBound, hr, hk]
-    · simp [hBound]
-  · exact Nat.le_refl _
+  unfold cancelHandler hBound
+  grind
 
-theorem hBound_finishReaction (now : Nat) (h : Handler) :
-    hBound now (finishReaction now h) ≤ hBound now h := by
-  unfold finishReaction
-  split
-  · split
-    · simp [hBound]
-    · exact Nat.le_refl _
-  · exact Nat.le_refl _
+theorem settle_RB {s : S} {n : Nat} (h : RB s n) : RB s.settle n := by
+  intro x hx
+  rw [settle_handlers] at hx
+  rw [settle_now]
+  exact h x hx
 
-theorem lose_RB {s : S} {n : Nat} (h : RB s n) : RB s.lose n := by
+theorem lose_RB {s : S} {n : Nat} (why : Cause) (h : RB s n) : RB (s.lose why) n := by
   unfold S.lose
   split
   · exact h
-  · intro x hx
-    rw [settle_handlers] at hx
-    rw [settle_now]
-    simp only [S.teardown, List.mem_map] at hx
-    obtain ⟨y, hy, rfl⟩ := hx
-    exact Nat.le_trans (hBound_cancel _ _) (h y hy)
+  · apply settle_RB
+    split
+    · exact h
+    · intro x hx
+      simp only [S.teardown, List.mem_map] at hx
+      obtain ⟨y, hy, rfl⟩ := hx
+      exact Nat.le_trans (hBound_cancel _ _) (h y hy)
 
-theorem fireClosers_RB {s : S} {n : Nat} (h : RB s n) : RB s.fireClosers n := by
-  unfold S.fireClosers
-  simp only []
+theorem doAbort_RB {s : S} {n : Nat} (h : RB s n) : RB s.doAbort n := by
+  unfold S.doAbort
   split
   · exact h
-  · exact lose_RB (s := { s with closers := _, aborts := _, closing := true }) h
+  · exact lose_RB _ (s := { s with abortedAt := some s.now, closing := true }) h
+
+theorem fired_RB {s : S} {n : Nat} (h : RB s n) : RB s.fired n := by
+  intro x hx
+  rw [fired_handlers] at hx
+  obtain ⟨y, hy, rfl⟩ := List.mem_map.mp hx
+  exact Nat.le_trans (hBound_fire_le _ _) (h y hy)
 
 theorem tick_RB {s : S} {n : Nat} (h : RB s n) : RB s.tick n := by
-  have h1 : RB s.bump.expire n := fun x hx => Nat.le_trans (hBound_succ _ _) (h x hx)
-  have h2 := fireClosers_RB h1
-  intro x hx
-  unfold S.tick at hx ⊢
-  rw [settle_handlers] at hx
-  rw [settle_now]
-  simp only [S.endReactions, List.mem_map] at hx
-  obtain ⟨y, hy, rfl⟩ := hx
-  exact Nat.le_trans (hBound_finishReaction _ _) (h2 y hy)
+  rw [tick_eq]
+  split
+  · exact settle_RB (doAbort_RB (fired_RB h))
+  · exact settle_RB (fired_RB h)
 
 theorem advance_RB (k : Nat) : ∀ {s : S} {n : Nat}, RB s n → RB (s.advance k) n := by
   induction k with
   | zero => intro s n h; exact h
   | succ k ih => intro s n h; exact ih (tick_RB h)
 
-theorem RB_reacting {s : S} {n : Nat} (h : RB s n) :
-    ∀ x ∈ s.handlers, ∀ u, x.status = .reacting u → u ≤ s.now + n := by
-  intro x hx u hu
-  have := h x hx
-  simp only [hBound, hu] at this
-  omega
+/-! ### after the teardown: the reactions run out -/
+
+/-- with message processing torn down and every remaining reaction over within `n` seconds,
+`_closed_event` is set after `n` seconds -/
+theorem closed_after (n : Nat) : ∀ {s : S}, Inv s → s.down = true → RB s n →
+    (s.advance n).closedEvent = true := by
+  induction n with
+  | zero =>
+    intro s i hd hb
+    apply i.settled hd
+    intro h hh
+    have hk := i.h.ok h hh
+    have h0 := hb h hh
+    unfold HOk at hk
+    unfold hBound at h0
+    cases hs : h.status with
+    | run => simp [hs, hd] at hk
+    | overrun u => simp [hs, hd] at hk
+    | reacting u => simp only [hs] at hk h0; omega
+    | done => rfl
+  | succ n ih =>
+    intro s i hd hb
+    show (s.tick.advance n).closedEvent = true
+    apply ih (tick_inv i) (tick_down hd)
+    intro x hx
+    rw [tick_handlers_of_down hd] at hx
+    obtain ⟨y, hy, rfl⟩ := List.mem_map.mp hx
+    rw [tick_now]
+    have h1 := hBound_fire s.now y
+    have h2 := hb y hy
+    have hk := i.h.ok y hy
+    unfold HOk at hk
+    cases hs : y.status with
+    | run => simp [hs, hd] at hk
+    | overrun u => simp [hs, hd] at hk
+    | reacting u => simp only [hs] at h1; omega
+    | done =>
+      unfold hBound fireHandler
+      simp [hs]
+
+/-- `_closed_event` stays set -/
+theorem closedEvent_tick {s : S} (i : Inv s) (hc : s.closedEvent = true) : s.tick.closedEvent = true := by
+  have hl := (i.h.closedThen hc).1
+  have hd := i.h.lostDown hl
+  have i' := tick_inv i
+  apply i'.settled (tick_down hd)
+  intro x hx
+  rw [tick_handlers_of_down hd] at hx
+  obtain ⟨y, hy, rfl⟩ := List.mem_map.mp hx
+  exact fireHandler_done ((i.h.closedThen hc).2 y hy)
+
+theorem closedEvent_advance (n : Nat) : ∀ {s : S}, Inv s → s.closedEvent = true →
+    (s.advance n).closedEvent = true := by
+  induction n with
+  | zero => intro s _ h; exact h
+  | succ n ih => intro s i h; exact ih (tick_inv i) (closedEvent_tick i h)
+
+/-- ... hence for every amount of time from `n` on -/
+theorem closed_from {s : S} (i : Inv s) (hd : s.down = true) {n : Nat} (hb : RB s n) (m : Nat)
+    (hm : n ≤ m) : (s.advance m).closedEvent = true := by
+  obtain ⟨k, rfl⟩ : ∃ k, m = n + k := ⟨m - n, by omega⟩
+  rw [advance_add]
+  exact closedEvent_advance k (advance_inv n i) (closed_after n i hd hb)
+
+/-! ### before the loss: whoever is inside `close()` forces it by the end of its wait -/
+
+/-- somebody is inside `close()` and its wait ends (with an abort) by the instant `t` -/
+def Forced (s : S) (t : Nat) : Prop :=
+  (∃ c ∈ s.closers, c.st = .waiting ∧ c.deadline ≤ t) ∨
+  (∃ h ∈ s.handlers, h.inClose = true ∧ ∃ d, h.kind = .closer d ∧ d ≤ t)
+
+theorem tick_not_lost {s : S} (i : Inv s) (hl : s.tick.lost = false) :
+    ({ s with now := s.now + 1 } : S).anyDue = false ∧ s.tick = s.fired := by
+  rw [tick_eq] at hl ⊢
+  split
+  · rename_i h
+    rw [h] at hl
+    simp only [↓reduceIte] at hl
+    rw [settle_lost (doAbort_lost _)] at hl; cases hl
+  · rename_i h
+    have h : ({ s with now := s.now + 1 } : S).anyDue = false := by simpa using h
+    rw [h] at hl
+    simp only [Bool.false_eq_true, ↓reduceIte] at hl
+    refine ⟨h, ?_⟩
+    rcases settle_lost_or (s := s.fired) (by rw [fired_fixed]; exact i.fixed) with h1 | h1
+    · rw [h1] at hl; cases hl
+    · exact h1
+
+theorem abortCloser_deadline (n : Nat) (c : Closer) : (abortCloser n c).deadline = c.deadline := by
+  unfold abortCloser; split <;> rfl
+
+/-- a task inside `close()` whose wait ends at most `n` seconds from now: after `n` seconds the
+connection is lost (it was already, or became so on its own, or the task's `abort()` did it) -/
+theorem lost_by (n : Nat) : ∀ {s : S}, Inv s → Forced s (s.now + n) → (s.advance n).lost = true := by
+  induction n with
+  | zero =>
+    intro s i hf
+    exfalso
+    rcases hf with ⟨c, hc, hw, hd⟩ | ⟨h, hh, hin, d, hk, hd⟩
+    · have := i.c.ok c hc
+      unfold COk at this
+      simp only [hw] at this
+      omega
+    · have := i.h.ok h hh
+      unfold HOk at this
+      unfold Handler.inClose at hin
+      simp only [Bool.and_eq_true, beq_iff_eq] at hin
+      simp only [hin.1, hk] at this
+      omega
+  | succ n ih =>
+    intro s i hf
+    show (s.tick.advance n).lost = true
+    rcases Bool.eq_false_or_eq_true s.tick.lost with hl | hl
+    · exact advance_lost n hl
+    · obtain ⟨hnd, he⟩ := tick_not_lost i hl
+      apply ih (tick_inv i)
+      rw [tick_now, he]
+      rcases hf with ⟨c, hc, hw, hd⟩ | ⟨h, hh, hin, d, hk, hd⟩
+      · left
+        refine ⟨c, ?_, hw, by omega⟩
+        rw [fired_closers]
+        exact List.mem_map.mpr ⟨c, hc, abortCloser_of_not_due (anyDue_false hnd c hc)⟩
+      · right
+        refine ⟨h, ?_, hin, d, hk, by omega⟩
+        rw [fired_handlers]
+        exact List.mem_map.mpr ⟨h, hh, fireHandler_inClose (i.h.ok h hh) hin
+          (anyDue_false_handlers hnd h hh)⟩
+
+/-- once the connection is lost after `a` seconds, `_closed_event` is set after `a` + the
+longest reaction, and stays set -/
+theorem closed_after_lost_by {s : S} (i : Inv s) (a : Nat) (hl : (s.advance a).lost = true)
+    (m : Nat) (hm : a + reactBound s ≤ m) : (s.advance m).closedEvent = true := by
+  obtain ⟨k, rfl⟩ : ∃ k, m = a + k := ⟨m - a, by omega⟩
+  rw [advance_add]
+  have ia := advance_inv a i
+  have hrb : RB (s.advance a) (reactBound s) := advance_RB a (RB_reactBound s)
+  exact closed_from ia (ia.h.lostDown hl) hrb k (by omega)
 
 end Aiorpcx.C08
